@@ -295,10 +295,54 @@ def r03_4(chk):
     chk.floor("R03.4", 3, "__add__, __getitem__ variants")
 
 
+OTHER_PARAMS = ("other", "ref_aln", "template", "seqs")
+
+
+def _positional_pairings(fn):
+    """zip(...) calls that pair something of self with something of another collection parameter"""
+    ps = [p for p in params_of(fn) if p in OTHER_PARAMS]
+    out = []
+    if not ps:
+        return out
+    for c in walk_no_nested(fn):
+        if isinstance(c, ast.Call) and call_name(c) == "zip" and len(c.args) >= 2:
+            roots = []
+            for a in c.args:
+                names = {x.id for x in ast.walk(a) if isinstance(x, ast.Name)}
+                roots.append(("self" if "self" in names else None, next((p for p in ps if p in names), None)))
+            if any(r[0] for r in roots) and any(r[1] for r in roots) and not all(r[0] and r[1] for r in roots):
+                out.append(c)
+    return out
+
+
+def r03_5(chk):
+    chk.rule("R03.5", "rows of two collections are associated by name, never by position: no zip(...) in a collection method pairs rows/names of self with rows/names of the other collection")
+    n = 0
+    for rel, classes in ((ALN, ("_SequenceCollectionBase", "SequenceCollection", "AlignmentI", "ArrayAlignment", "Alignment")), ("core/new_alignment.py", ("SequenceCollection",))):
+        m = chk.repo.module(rel)
+        for cname in classes:
+            ci = m.cls(cname)
+            for name, fn in ci.methods.items():
+                if not isinstance(fn, ast.FunctionDef) or not any(p in OTHER_PARAMS for p in params_of(fn)):
+                    continue
+                n += 1
+                hits = _positional_pairings(fn)
+                q = f"{cname}.{name}"
+                for c in hits:
+                    chk.violation("R03.5", key(m, q, f"positional pairing {norm(c)}"), m.loc(c), f"`{norm(c)}` pairs the rows of the two collections by position: when the other collection lists the same names in another order, each name receives the wrong row")
+                if not hits:
+                    chk.ok("R03.5", key(m, q, "rows paired by name"), m.loc(fn), "no positional pairing of self with the other collection", nontrivial=False)
+    probe = ast.parse("def __add__(self, other):\n    return [a + b for a, b in zip(self.seqs, other.seqs)]\n").body[0]
+    if not _positional_pairings(probe):
+        raise AnalysisError("R03.5 self-probe failed")
+    chk.floor("R03.5", 0, "expected-zero rule with embedded probe")
+
+
 def run(chk):
     r03_1(chk)
     r03_2(chk)
     r03_3(chk)
     r03_4(chk)
+    r03_5(chk)
     chk.assume("numpy basic slicing, reshape, .T alias their base array; take/fancy indexing/arithmetic/copy are fresh")
     chk.assume("history-state table: SeqsData.reversed_seqs, IndelMap.termini_unknown (curated: other optional constructor parameters are construction options, not state)")
